@@ -12,8 +12,10 @@ import (
 	"time"
 
 	va "pipelined.dev/signal/verifatomic"
+	vs "pipelined.dev/signal/verifsync"
 	"verif/mc/core"
 	"verif/mc/dyn"
+	"verif/mc/poolctl"
 	"verif/mc/schedx"
 )
 
@@ -28,6 +30,7 @@ type c19Cfg struct {
 	Bound   int
 	Partial bool // readers only: the shared buffer's last frame is partly filled (C-1 samples appended after 5 frames)
 	Frames  int  // frames of the shared buffer (0: 6)
+	Pooled  bool // the shared buffer is a recycled pool buffer (previous owner grew it, then Put): length 3 frames, the writers' ranges lie in its spare capacity
 	// Mode != "": the all-instantiations harness: two threads convert with instantiation (Src, Dst);
 	// "readers": one shared source, private destinations; "writers": private sources into two
 	// disjoint windows of one shared destination
@@ -71,6 +74,25 @@ func (h *c19H) frames() int {
 func (h *c19H) Init() {
 	C := h.cfg.C
 	c19Frames := h.frames()
+	poolctl.ResetSched()
+	if h.cfg.Pooled {
+		// a recycled pooled buffer: nothing but Get, AppendSample, Put, Get, SetSample touches it before the threads start
+		p := dyn.NewPool(h.t, al(C, 3, c19Frames))
+		prev := p.Get()
+		for k := 0; k < C+1; k++ {
+			prev.AppendSample(dyn.Tok(h.t, 9))
+		}
+		p.Put(prev)
+		h.parent = p.Get()
+		for i := 0; i < C*3; i++ {
+			h.parent.SetSample(i, dyn.Tok(h.t, tk(int64(1+i))))
+		}
+		h.roEnd = 3
+		for i := range h.obs {
+			h.obs[i], h.step[i], h.fails[i] = 14695981039346656037, 0, nil
+		}
+		return
+	}
 	if h.cfg.Partial {
 		// no shape method is called on the shared header before the threads start
 		h.parent = dyn.Alloc(h.t, al(C, c19Frames-1, c19Frames))
@@ -163,6 +185,10 @@ func (h *c19H) reader(id int) {
 		case "slice":
 			s := p.Slice(1, full)
 			h.mix(id, uint64(s.Len()), uint64(s.Cap()), uint64(s.Length()), uint64(s.Capacity()))
+			if !h.cfg.Partial {
+				s2 := p.Slice(full, p.Capacity()) // up to the capacity: only its shape is looked at
+				h.mix(id, uint64(s2.Len()), uint64(s2.Cap()))
+			}
 			for i := 0; i < s.Len(); i++ {
 				h.mix(id, s.Sample(i).B)
 			}
@@ -246,8 +272,12 @@ func (h *c19H) Run(id int) {
 
 func (h *c19H) Finish() []string {
 	var final []dyn.Val
-	for i := 0; i < h.parent.Len(); i++ {
-		final = append(final, h.parent.Sample(i))
+	whole := h.parent
+	if h.cfg.Pooled {
+		whole = full(h.parent)
+	}
+	for i := 0; i < whole.Len(); i++ {
+		final = append(final, whole.Sample(i))
 	}
 	hd := hdr(h.parent)
 	if !h.haveRef {
@@ -347,6 +377,14 @@ func c19Configs(tier string, race bool) []c19Cfg {
 			}
 		}
 	}
+	addPooled := func(bound int) { // a recycled pool buffer as the shared buffer
+		for _, t := range types {
+			for _, m := range all {
+				r = append(r, c19Cfg{T: t, C: 2, R: 2, W: 0, Menu: m, Bound: bound, Pooled: true})
+				r = append(r, c19Cfg{T: t, C: 2, R: 1, W: 2, Menu: m, Bound: bound, Pooled: true})
+			}
+		}
+	}
 	addWide := func(R, bound int) { // more than 8 channels, and long (>= 1024 samples) shared buffers
 		for _, m := range all {
 			r = append(r, c19Cfg{T: "int64", C: 9, R: R, W: 0, Menu: m, Bound: bound})
@@ -356,6 +394,7 @@ func c19Configs(tier string, race bool) []c19Cfg {
 	}
 	if race {
 		addWide(2, 2)
+		addPooled(2)
 		if tier == "thorough" {
 			add(2, 0, -1, all, []int{1, 2})
 			addPartial(2, -1)
@@ -377,6 +416,7 @@ func c19Configs(tier string, race bool) []c19Cfg {
 	add(2, 0, -1, all, []int{1, 2})
 	addPartial(2, -1)
 	addWide(2, -1)
+	addPooled(-1)
 	add(3, 0, -1, all, []int{2})
 	add(1, 1, -1, all, []int{1, 2})
 	add(2, 2, -1, all, []int{1, 2})
@@ -477,7 +517,8 @@ func c19Explore(c *core.Ctx, cfg c19Cfg, race bool, only []int, onFail func(cs c
 	old := runtime.GOMAXPROCS(1)
 	defer runtime.GOMAXPROCS(old)
 	va.Hook = func(op string) { schedx.Point(op) } // atomic operations of the library are scheduling points
-	defer func() { va.Hook = nil }()
+	vs.Global = poolctl.Sched{}                    // pools (the recycled shared buffer) are deterministic
+	defer func() { va.Hook = nil; vs.Global = nil }()
 	start := time.Now()
 	var h schedx.Harness = &c19H{cfg: cfg, t: typeByName(cfg.T)}
 	if cfg.Mode != "" {
@@ -611,7 +652,7 @@ func init() {
 				}
 			}
 			c.Sample(map[string]any{"cfg": c19Cfg{T: "int8", C: 2, R: 2, W: 2, Menu: 0, Bound: -1}, "threads": "readers: samples, Read, Slice+reads, conversion source; writers: Slice(lo,hi) then SetSample, Write, conversion destination, Channel.SetSample"})
-			c.Set("rule", "one shared buffer (6 frames, 1-2 channels, int8/uint16/float32; readers-only variants with 2-3 channels whose last frame is partly filled and whose header nobody touched before the threads start) split into a read-only region and one 2-frame range per writer; R readers run every read-only entry point (Sample, shape methods, BufferIndex, Read, ReadStriped, Slice + reads, Channel views, the three conversion families with the shared buffer as source), W writers each take their own Slice and use SetSample, Write, WriteStriped, Channel.SetSample and a conversion with the window as destination; every interleaving at operation granularity (state-key pruning) for (R,W) in {(2,0),(3,0),(1,1),(2,2),(1,2)} [+ (4,0),(3,2),(0,3),(2,3) thorough]; oracle: every thread's observations, the final contents and the shape equal those of the sequential schedule; the bounded pass in the -race build reports conflicting accesses; and for every one of the 169 instantiations two readers of one source / two writers into disjoint windows of one destination (6 and 600 frames, 2 and 9 channels) under the race monitor")
+			c.Set("rule", "one shared buffer (6 frames, 1-2 channels, int8/uint16/float32; variants whose shared buffer is a recycled pool buffer with the writers in its spare capacity; readers-only variants with 2-3 channels whose last frame is partly filled and whose header nobody touched before the threads start) split into a read-only region and one 2-frame range per writer; R readers run every read-only entry point (Sample, shape methods, BufferIndex, Read, ReadStriped, Slice + reads, Channel views, the three conversion families with the shared buffer as source), W writers each take their own Slice and use SetSample, Write, WriteStriped, Channel.SetSample and a conversion with the window as destination; every interleaving at operation granularity (state-key pruning) for (R,W) in {(2,0),(3,0),(1,1),(2,2),(1,2)} [+ (4,0),(3,2),(0,3),(2,3) thorough]; oracle: every thread's observations, the final contents and the shape equal those of the sequential schedule; the bounded pass in the -race build reports conflicting accesses; and for every one of the 169 instantiations two readers of one source / two writers into disjoint windows of one destination (6 and 600 frames, 2 and 9 channels) under the race monitor")
 			c.Assume("operation granularity suffices because the race monitor shows the operations conflict-free on every explored schedule (conflict-free operations are both-movers)", "the Go race detector is trusted as happens-before monitor; GOMAXPROCS 1 by construction")
 		},
 		RunCase: func(c *core.Ctx, raw json.RawMessage) []F {
